@@ -414,6 +414,14 @@ func headerFields(r *rand.Rand, o Opts, f *sfnt.Font, info *Info) {
 		f.XHeight = 0
 		info.Classes = append(info.Classes, "rule:xheight-from-x")
 	}
+	if !o.Plain && r.IntN(16) == 0 {
+		// heights that are not positive count as "not set"
+		f.XHeight = -funit.Int16(1 + r.IntN(600))
+		if r.IntN(2) == 0 {
+			f.CapHeight = -funit.Int16(1 + r.IntN(600))
+		}
+		info.Classes = append(info.Classes, "rule:negative-height-unset")
+	}
 	f.UnderlinePosition = -funit.Float64(r.IntN(400))
 	f.UnderlineThickness = funit.Float64(r.IntN(200))
 	if !o.Plain && r.IntN(10) == 0 {
